@@ -571,6 +571,12 @@ func judge(b *behaviour, sent []string, o outcome) (sig, what string, drift bool
 	// IdsPreserved: the id read back is the id written, including its type (b.IDs = the spec's ReadIds, which
 	// the model proves equal to the ids sent)
 	for k, got := range o.IDs {
+		if k < len(b.IDs) {
+			idsCompared++
+			if got.T == "str" && got.N != noNum {
+				numStrRead++
+			}
+		}
 		if k < len(b.IDs) && got != b.IDs[k] {
 			what := fmt.Sprintf("message %d was written with the %s id %s and read back with the %s id %s", k+1, idKind(b.IDs[k]), b.IDs[k].q(), idKind(got), got.q())
 			if got.T != b.IDs[k].T {
@@ -615,6 +621,10 @@ func judge(b *behaviour, sent []string, o outcome) (sig, what string, drift bool
 	}
 	return "", "", false
 }
+
+// how many decoded ids were compared with the spec's prediction, and how many of them were string ids that
+// look like numbers (the check fails closed on both)
+var idsCompared, numStrRead int
 
 func idKind(t tid) string {
 	switch t.T {
@@ -818,7 +828,7 @@ func framing(path string, seed int64, splits int) {
 	variants := map[string]int{}
 	classes := map[string]int{}
 	errs := map[string]int{}
-	var nbeh, nrun, npipe, fails, drifts, samples, roundtrips int
+	var nbeh, nrun, npipe, fails, drifts, samples, roundtrips, rtFails int
 	fails += wfails
 	maxChunks := 0
 
@@ -921,8 +931,10 @@ func framing(path string, seed int64, splits int) {
 			roundtrips++
 			if sig, what, _ := judge(&gb, sent, ro); sig != "" {
 				fails++
-				vhlib.Fail(strings.Replace(sig, "Framing.", "Framing.RoundTrip.", 1), "written by the real stream.Write, read by the real stream.Read: "+what,
-					framingCase{Sent: sent, Variant: "none", Wire: string(rt), Chunks: ch, Mode: "roundtrip", Got: ro})
+				if rtFails++; rtFails <= 10 {
+					vhlib.Fail(strings.Replace(sig, "Framing.", "Framing.RoundTrip.", 1), "written by the real stream.Write, read by the real stream.Read: "+what,
+						framingCase{Sent: sent, Variant: "none", Wire: string(rt), Chunks: ch, Mode: "roundtrip", Got: ro})
+				}
 			}
 		}
 		if samples < 4 && (b.Class == "bad" || len(b.Sent) > 1) {
@@ -940,5 +952,6 @@ func framing(path string, seed int64, splits int) {
 	}
 	sort.Strings(vs)
 	vhlib.Summary(map[string]any{"behaviours": nbeh, "stream_runs": nrun, "pipe_runs": npipe, "roundtrips": roundtrips, "fails": fails, "drift": drifts,
-		"variants": vs, "classes": classes, "errors": errs, "catalogue": len(cat), "max_chunks": maxChunks})
+		"variants": vs, "classes": classes, "errors": errs, "catalogue": len(cat), "max_chunks": maxChunks,
+		"ids_compared": idsCompared, "numeric_string_ids_read": numStrRead})
 }
